@@ -2023,3 +2023,201 @@ Section RoundTripTM.
           apply Hlk in E'. rewrite lookup_None in E. destruct (E v E').
   Qed.
 End RoundTripTM.
+
+(* ------------------------------------------------------------------ *)
+(* Part C.3 (builders): aut_equiv automata are built into equivalent objects *)
+(* ------------------------------------------------------------------ *)
+Lemma bool_eq_iff (b1 b2 : bool) : (b1 = true <-> b2 = true) -> b1 = b2.
+Proof. destruct b1, b2; intros [H1 H2]; try reflexivity; [symmetry; apply H1; reflexivity | apply H2; reflexivity]. Qed.
+
+Section SeteqBool.
+  Context {X : Type} `{Eqb X}.
+  Lemma mem_seteq (x : X) l l' : seteq l l' -> mem x l = mem x l'.
+  Proof. intros Hs. apply bool_eq_iff. rewrite !mem_In. apply Hs. Qed.
+  Lemma forallb_seteq (f : X -> bool) l l' : seteq l l' -> forallb f l = forallb f l'.
+  Proof.
+    intros Hs. apply bool_eq_iff. rewrite !forallb_forall. split; intros Hf x Hx; apply Hf, Hs, Hx.
+  Qed.
+  Lemma existsb_seteq (f : X -> bool) l l' : seteq l l' -> existsb f l = existsb f l'.
+  Proof.
+    intros Hs. apply bool_eq_iff. rewrite !existsb_exists. split; intros [x [Hx Hf]]; exists x; split; try exact Hf; apply Hs, Hx.
+  Qed.
+  Lemma subsetb_seteq (a a' b b' : list X) : seteq a a' -> seteq b b' -> subsetb a b = subsetb a' b'.
+  Proof.
+    intros Ha Hb. apply bool_eq_iff. rewrite !subsetb_incl. split; intros Hi x Hx; apply Hb, Hi, Ha, Hx.
+  Qed.
+  Lemma seteq_refl (l : list X) : seteq l l. Proof. intros x; tauto. Qed.
+  Lemma seteq_sym (l l' : list X) : seteq l l' -> seteq l' l. Proof. intros Hs x. symmetry. apply Hs. Qed.
+  Lemma seteq_trans (l1 l2 l3 : list X) : seteq l1 l2 -> seteq l2 l3 -> seteq l1 l3.
+  Proof. intros H1 H2 x. rewrite (H1 x). apply H2. Qed.
+  Lemma seteq_dedup (l l' : list X) : seteq l l' -> seteq (dedup l) (dedup l').
+  Proof. intros Hs x. rewrite !dedup_In. apply Hs. Qed.
+  Lemma seteq_filter (f : X -> bool) l l' : seteq l l' -> seteq (filter f l) (filter f l').
+  Proof. intros Hs x. rewrite !filter_In, (Hs x). tauto. Qed.
+  Lemma seteq_add (x : X) l l' : seteq l l' -> seteq (add x l) (add x l').
+  Proof. intros Hs y. rewrite !add_In, (Hs y). tauto. Qed.
+  Lemma seteq_union (l1 l1' l2 : list X) : seteq l1 l1' -> seteq (union l1 l2) (union l1' l2).
+  Proof. intros Hs y. rewrite !union_In, (Hs y). tauto. Qed.
+End SeteqBool.
+
+Lemma forallb_ext {X} (f g : X -> bool) l : (forall x, f x = g x) -> forallb f l = forallb g l.
+Proof. intros He. induction l as [|x l IH]; [reflexivity|]. cbn [forallb]. rewrite He, IH. reflexivity. Qed.
+
+Lemma seteq_map {X Y} (f : X -> Y) l l' : seteq l l' -> seteq (map f l) (map f l').
+Proof. intros Hs y. rewrite !in_map_iff. split; intros [x [E Hx]]; exists x; split; try exact E; apply Hs, Hx. Qed.
+Lemma seteq_flat_map {X Y} (f : X -> list Y) l l' : seteq l l' -> seteq (flat_map f l) (flat_map f l').
+Proof. intros Hs y. rewrite !in_flat_map. split; intros [x [Hx E]]; exists x; split; try exact E; apply Hs, Hx. Qed.
+
+Lemma aut_equiv_trans_seteq A B : aut_equiv A B -> seteq (a_trans A) (a_trans B).
+Proof. intros [_ [_ [_ [Hp _]]]]. apply seteq_perm, Hp. Qed.
+
+Lemma used_states_equiv A B : aut_equiv A B -> seteq (used_states A) (used_states B).
+Proof.
+  intros He s. pose proof (aut_equiv_trans_seteq A B He) as Ht. destruct He as [_ [Hi [Hf _]]].
+  rewrite !used_states_In, Hi, Hf. split.
+  - intros [H1|[H1|[p [a [q [Hin Hs]]]]]]; [auto | auto |]. right; right. exists p, a, q. split; [apply Ht, Hin | exact Hs].
+  - intros [H1|[H1|[p [a [q [Hin Hs]]]]]]; [auto | auto |]. right; right. exists p, a, q. split; [apply Ht, Hin | exact Hs].
+Qed.
+
+Lemma states_or_used_equiv A B : aut_equiv A B -> seteq (states_or_used A) (states_or_used B).
+Proof.
+  intros He. pose proof (used_states_equiv A B He) as Hu. destruct He as [Hs _].
+  unfold states_or_used. rewrite <- Hs. destruct (a_states A); [exact Hu | apply seteq_refl].
+Qed.
+
+Lemma check_common_equiv sre st st' A B :
+  aut_equiv A B -> seteq st st' -> check_common sre st A = check_common sre st' B.
+Proof.
+  intros He Hst. unfold check_common.
+  rewrite (subsetb_seteq _ _ _ _ (used_states_equiv A B He) Hst), (forallb_seteq sre _ _ Hst).
+  destruct He as [_ [Hi _]]. rewrite Hi. reflexivity.
+Qed.
+
+Lemma get_symbol_set_equiv A B k u u' :
+  aut_equiv A B -> seteq u u' -> opt_rel seteq (get_symbol_set A k u) (get_symbol_set B k u').
+Proof.
+  intros He Hu. destruct He as [_ [_ [_ [_ [_ Hl]]]]]. unfold get_symbol_set. rewrite <- (Hl k).
+  destruct (lookup k (a_items A)) as [decl|]; [|exact Hu].
+  rewrite (subsetb_seteq _ _ _ _ Hu (seteq_refl (dedup decl))).
+  destruct (subsetb u' (dedup decl)); [apply seteq_refl | exact I].
+Qed.
+
+Lemma get_single_equiv A B k d : aut_equiv A B -> get_single A k d = get_single B k d.
+Proof. intros [_ [_ [_ [_ [_ Hl]]]]]. unfold get_single. rewrite (Hl k). reflexivity. Qed.
+
+Lemma parse_symbol_equiv A B k c d : aut_equiv A B -> parse_symbol A k c d = parse_symbol B k c d.
+Proof.
+  intros He. unfold parse_symbol. rewrite (get_single_equiv A B k d He).
+  pose proof (aut_equiv_trans_seteq A B He) as Ht. destruct He as [_ [_ [_ [_ [_ Hl]]]]]. rewrite (Hl k).
+  destruct (lookup k (a_items B)); [reflexivity|].
+  rewrite (existsb_seteq _ _ _ Ht). reflexivity.
+Qed.
+
+(* ---- DFA ---- *)
+Lemma tdfa_wf_b_equiv D D' : tdfa_equiv D D' -> tdfa_wf_b D = tdfa_wf_b D'.
+Proof.
+  intros [HQ [HS [HD [HL [Hq HF]]]]]. unfold tdfa_wf_b.
+  rewrite Hq, (mem_seteq _ _ _ HQ), (subsetb_seteq _ _ _ _ HF HQ), (forallb_seteq _ _ _ HD), (forallb_seteq _ _ _ HQ).
+  f_equal; [f_equal|].
+  - apply forallb_ext. intros [[q a] q1]. rewrite (mem_seteq q _ _ HQ), (mem_seteq a _ _ HS), (mem_seteq q1 _ _ HQ). reflexivity.
+  - apply forallb_ext. intros q. rewrite (forallb_seteq _ _ _ HS). apply forallb_ext. intros a. rewrite (HL (q, a)). reflexivity.
+Qed.
+
+Lemma dfa_keys_perm A B : aut_equiv A B -> Permutation (dfa_keys A) (dfa_keys B).
+Proof. intros [_ [_ [_ [Hp _]]]]. unfold dfa_keys. apply Permutation_map, Hp. Qed.
+
+Theorem build_dfa_equiv : forall sre A B, aut_equiv A B -> opt_rel tdfa_equiv (build_dfa sre A) (build_dfa sre B).
+Proof.
+  intros sre A B He. unfold build_dfa.
+  pose proof (states_or_used_equiv A B He) as Hst.
+  rewrite (check_common_equiv sre _ _ A B He Hst).
+  destruct (check_common sre (states_or_used B) B); cbn [negb]; [|exact I].
+  fold (dfa_keys A). fold (dfa_keys B).
+  pose proof (dfa_keys_perm A B He) as Hk.
+  assert (Hdet : Nat.eqb (length (dedup (dfa_keys A))) (length (dfa_keys A)) = Nat.eqb (length (dedup (dfa_keys B))) (length (dfa_keys B))).
+  { apply bool_eq_iff. rewrite !Nat.eqb_eq, !dedup_length_NoDup. split; apply Permutation_NoDup; [exact Hk | apply Permutation_sym, Hk]. }
+  rewrite Hdet. destruct (Nat.eqb (length (dedup (dfa_keys B))) (length (dfa_keys B))) eqn:Hdb; cbn [negb]; [|exact I].
+  apply Nat.eqb_eq, dedup_length_NoDup in Hdb.
+  assert (Hks : seteq (dfa_keys A) (dfa_keys B)) by (apply seteq_perm, Hk).
+  pose proof (get_symbol_set_equiv A B kw_input_symbols _ _ He (seteq_dedup _ _ (seteq_map snd _ _ Hks))) as Hg.
+  destruct (get_symbol_set A kw_input_symbols _) as [sg|]; destruct (get_symbol_set B kw_input_symbols _) as [sg'|]; cbn [opt_rel] in Hg; try contradiction; [|exact I].
+  rewrite (forallb_seteq re_word _ _ Hg). destruct (forallb re_word sg'); cbn [negb]; [|exact I].
+  assert (Htot : forallb (fun p => forallb (fun a => mem (p, a) (dfa_keys A)) sg) (states_or_used A) =
+                 forallb (fun p => forallb (fun a => mem (p, a) (dfa_keys B)) sg') (states_or_used B)).
+  { rewrite (forallb_seteq _ _ _ Hst). apply forallb_ext. intros p. rewrite (forallb_seteq _ _ _ Hg).
+    apply forallb_ext. intros a. apply mem_seteq, Hks. }
+  rewrite Htot. destruct (forallb _ (states_or_used B)); cbn [negb]; [|exact I].
+  fold (dfa_delta_of (a_trans A)). fold (dfa_delta_of (a_trans B)).
+  assert (Hpd : Permutation (dfa_delta_of (a_trans A)) (dfa_delta_of (a_trans B))).
+  { unfold dfa_delta_of. apply Permutation_map. apply He. }
+  assert (Heq : tdfa_equiv (mkTDFA (states_or_used A) sg (dfa_delta_of (a_trans A)) (hd [] (a_init A)) (a_final A))
+                           (mkTDFA (states_or_used B) sg' (dfa_delta_of (a_trans B)) (hd [] (a_init B)) (a_final B))).
+  { unfold tdfa_equiv. cbn [tdQ tdS tdD tdq0 tdF]. destruct He as [_ [Hi [Hf _]]]. rewrite Hi, Hf.
+    repeat split; try (apply Hst); try (apply Hg); try (apply (seteq_perm _ _ Hpd)); try tauto.
+    intros k. apply lookup_perm; [|exact Hpd].
+    assert (Ek : map fst (dfa_delta_of (a_trans A)) = dfa_keys A).
+    { unfold dfa_delta_of, dfa_keys. rewrite map_map. apply map_ext. intros [[p a] q]. reflexivity. }
+    rewrite Ek. apply (Permutation_NoDup (Permutation_sym Hk) Hdb). }
+  rewrite (tdfa_wf_b_equiv _ _ Heq). destruct (tdfa_wf_b _); [exact Heq | exact I].
+Qed.
+
+(* ---- NFA ---- *)
+Lemma group_nfa_wf Q Sg trs q0 F eps :
+  tnfa_wf_b (mkTNFA Q Sg (group_nfa trs) q0 F eps) = true <->
+  In q0 Q /\ incl F Q /\ ~ In eps Sg /\ forall p a q, In (p, a, q) trs -> In p Q /\ (In a Sg \/ a = eps) /\ In q Q.
+Proof.
+  unfold tnfa_wf_b. cbn [tnQ tnS tnD tnq0 tnF tneps].
+  rewrite !andb_true_iff, mem_In, subsetb_incl, negb_true_iff, mem_nIn, forallb_forall. split.
+  - intros [[[H1 H2] H3] H4]. repeat split; try assumption;
+      apply group_nfa_target in H as Ht; destruct Ht as [s [Hl Hq]]; apply lookup_In in Hl;
+      specialize (H4 _ Hl); cbn in H4; rewrite !andb_true_iff, orb_true_iff, !mem_In, subsetb_incl in H4;
+      destruct H4 as [[Hp Ha] Hs].
+    + exact Hp.
+    + destruct Ha as [Ha|Ha]; [left; exact Ha | right; apply eqb_true; exact Ha].
+    + apply Hs, Hq.
+  - intros [H1 [H2 [H3 H4]]]. repeat split; try assumption.
+    intros [[p a] s] Hin. apply group_nfa_entry in Hin. destruct Hin as [Hne Hall].
+    destruct s as [|q s]; [contradiction|].
+    destruct (H4 p a q (Hall q (or_introl eq_refl))) as [Hp [Ha _]].
+    rewrite !andb_true_iff, orb_true_iff, !mem_In, subsetb_incl. repeat split.
+    + exact Hp.
+    + destruct Ha as [Ha| ->]; [left; exact Ha | right; apply eqb_refl].
+    + intros q' Hq'. apply (H4 p a q' (Hall q' Hq')).
+Qed.
+
+Theorem build_nfa_equiv : forall sre A B, aut_equiv A B -> opt_rel tnfa_equiv (build_nfa sre A) (build_nfa sre B).
+Proof.
+  intros sre A B He. unfold build_nfa.
+  pose proof (states_or_used_equiv A B He) as Hst.
+  pose proof (aut_equiv_trans_seteq A B He) as Ht.
+  rewrite (check_common_equiv sre _ _ A B He Hst).
+  destruct (check_common sre (states_or_used B) B); cbn [negb]; [|exact I].
+  rewrite (parse_symbol_equiv A B _ _ _ He).
+  destruct (parse_symbol B kw_epsilon c_eps [c_underscore]) as [eps|]; [|exact I].
+  pose proof (get_symbol_set_equiv A B kw_input_symbols _ _ He
+               (seteq_dedup _ _ (seteq_filter (fun a => negb (eqb a eps)) _ _ (seteq_map (fun t : token * token * token => let '(_, a, _) := t in a) _ _ Ht)))) as Hg.
+  destruct (get_symbol_set A kw_input_symbols _) as [sg|]; destruct (get_symbol_set B kw_input_symbols _) as [sg'|]; cbn [opt_rel] in Hg; try contradiction; [|exact I].
+  rewrite (forallb_seteq re_word _ _ Hg). destruct (forallb re_word sg'); cbn [negb]; [|exact I].
+  destruct He as [_ [Hi [Hf _]]]. rewrite Hi, Hf.
+  assert (Hwf : tnfa_wf_b (mkTNFA (states_or_used A) sg (group_nfa (a_trans A)) (hd [] (a_init B)) (a_final B) eps) =
+                tnfa_wf_b (mkTNFA (states_or_used B) sg' (group_nfa (a_trans B)) (hd [] (a_init B)) (a_final B) eps)).
+  { apply bool_eq_iff. rewrite !group_nfa_wf. unfold incl.
+    split; intros [H1 [H2 [H3 H4]]]; repeat split.
+    - apply Hst, H1.
+    - intros x Hx. apply Hst, H2, Hx.
+    - intros Hc. apply H3, Hg, Hc.
+    - apply Hst. apply (H4 p a q). apply Ht, H.
+    - destruct (H4 p a q (proj2 (Ht _) H)) as [_ [[Ha|Ha] _]]; [left; apply Hg, Ha | right; exact Ha].
+    - apply Hst. apply (H4 p a q). apply Ht, H.
+    - apply Hst, H1.
+    - intros x Hx. apply Hst, H2, Hx.
+    - intros Hc. apply H3, Hg, Hc.
+    - apply Hst. apply (H4 p a q). apply Ht, H.
+    - destruct (H4 p a q (proj1 (Ht _) H)) as [_ [[Ha|Ha] _]]; [left; apply Hg, Ha | right; exact Ha].
+    - apply Hst. apply (H4 p a q). apply Ht, H. }
+  rewrite Hwf. destruct (tnfa_wf_b _); [|exact I].
+  unfold opt_rel, tnfa_equiv. cbn [tnQ tnS tnD tnq0 tnF tneps].
+  repeat split; try (apply Hst); try (apply Hg); try tauto.
+  - intros Hs. unfold tn_step in *. cbn [tnD] in *. apply group_nfa_target. apply Ht. apply group_nfa_target. exact Hs.
+  - intros Hs. unfold tn_step in *. cbn [tnD] in *. apply group_nfa_target. apply Ht. apply group_nfa_target. exact Hs.
+Qed.
